@@ -34,7 +34,7 @@ def generate(rng, tier, n):
             c['job'] = K.gen_multi(rng, w, tour)
             c['pos'] = 'any'
         else:
-            c['job'] = K.gen_single(rng, w, tour)
+            c['job'] = K.gen_boundary_single(rng, w, tour) if rng.chance(2, 5) else K.gen_single(rng, w, tour)
             r = rng.below(10)
             c['pos'] = 'any' if r < 6 else ('last' if r < 7 else ['concrete', rng.below(len(tour) + 3)])
         cases.append(c)
